@@ -30,14 +30,18 @@ package query
 //@ func splitFunc
 //@   props C12
 //@   nopanic
+//@   pure separatorFunc
 
 // Token constructors only build a value.
 //@ func newTokenKV
 //@ func newTokenKVV
 //@ func newTokenSearch
+//@   props C12
+//@   modifies nothing
 //@ func isQuote
 //@   props C12
 //@   modifies nothing
+//@   ensures result == (r == 34 || r == 39)
 
 // Parse (C12). Relative to the token list: every search term, author, actor, participant, label, title and
 // metadata pair of the query comes from a token of that kind and every such token is represented (any-of /
@@ -93,3 +97,17 @@ package query
 //@     invariant [sort-applied] (forall k int :: { tokens[k] } 0 <= k && k <= rangeindex && tokens[k].kind == tokenKindKV && tokens[k].qualifier == "sort" ==> int(q.OrderBy) == sortBy(tokens[k].value) && int(q.OrderDirection) == sortDir(tokens[k].value))
 //@     invariant [default-sort] ((forall k int :: { tokens[k] } 0 <= k && k <= rangeindex ==> !(tokens[k].kind == tokenKindKV && tokens[k].qualifier == "sort")) ==> q.OrderBy == OrderByCreation && q.OrderDirection == OrderDescending)
 //@     invariant [sorting-done] sortingDone == (exists k int :: { tokens[k] } 0 <= k && k <= rangeindex && tokens[k].kind == tokenKindKV && tokens[k].qualifier == "sort")
+
+// The quote-tracking step of the splitter (the closure isChunk of splitFunc): outside quotes a quote character
+// opens a quoted section and is remembered; inside, only the same quote character closes it - the other kind
+// of quote is ordinary text; everything inside quotes belongs to the chunk; outside quotes a rune belongs to the
+// chunk exactly when it is not a separator.
+//@ func splitFunc$1
+//@   props C12
+//@   pure separatorFunc
+//@   let q0 = inQuote0
+//@   let l0 = lastQuote0
+//@   ensures [opens]        !q0 && (r == 34 || r == 39) ==> result && inQuote && lastQuote == r
+//@   ensures [closes]       q0 && r == l0 ==> result && !inQuote && lastQuote == 0
+//@   ensures [inside]       q0 && r != l0 ==> result && inQuote && lastQuote == l0
+//@   ensures [outside]      !q0 && r != 34 && r != 39 ==> result == !separatorFunc(r) && !inQuote && lastQuote == l0
